@@ -146,7 +146,7 @@ var chainNodes = []nspec{
 	{"barrier", nil, []pspec{p("idle", aD), p("delete", aLit)}, "*", "="},
 	{"barrier", nil, []pspec{p("period", aD)}, "*", "="},
 	{"stats", []ak{aD}, []pspec{p("align")}, "*", "S"},
-	{"deadman", []ak{aF, aD}, nil, "*", "="},
+	{"deadman", []ak{aF, aD}, nil, "*", "S"}, // (stats|derivative|alert: a stream edge whatever the input)
 	{"sideload", nil, []pspec{p("source", aS), p("order", aSL), p("field", aS, aLit), p("tag", aS, aS)}, "*", "="},
 	{"trickle", nil, nil, "B", "S"},
 }
